@@ -21,6 +21,11 @@ func main() {
 		os.Exit(2)
 	}
 	id := os.Args[1]
+	if os.Getenv("VERIF_C20_COLD") == "1" {
+		slog.SetDefault(slog.New(slog.NewTextHandler(io.Discard, &slog.HandlerOptions{Level: slog.LevelError + 8})))
+		checks.C20ColdChild()
+		return
+	}
 	if id == "list" {
 		for _, s := range checks.All() {
 			fmt.Println(s.ID)
